@@ -193,6 +193,9 @@ func startGRPC(t *testing.T) *grpcHarness {
 			panic(err)
 		}
 		cfg.Proxy.Strategy = "rr"
+		// proxy.grpcshutdowntimeout: how long a connection whose backend left the table is given (0 = none)
+		cfg.Proxy.GRPCGShutdownTimeout = []time.Duration{2 * time.Second, 0, 500 * time.Millisecond}[hx.Shard()%3]
+		hx.Note(fmt.Sprintf("proxy.grpcshutdowntimeout=%v", cfg.Proxy.GRPCGShutdownTimeout))
 		// different limits for the two directions (they are separate options)
 		cfg.Proxy.GRPCMaxRxMsgSize, cfg.Proxy.GRPCMaxTxMsgSize = grpcRxLimit(), grpcTxLimit()
 		dp := metrics.DiscardProvider{}
